@@ -134,6 +134,8 @@ func genC01(r *kit.RNG) *C01Scenario {
 				t.Step = "referral"
 			case "drop-denial", "foreign-denial", "nx-to-nodata":
 				t.Step = kit.Pick(r, []string{"negative", "referral", "ds"})
+			case "wildcard-replay", "wildcard-replay-other-nsec", "wildcard-replay-forged-nsec":
+				t.Step = "answer"
 			case "nodata-for-existing", "flip-rdata", "forge-resign", "inject-answer", "drop-some-sigs":
 				t.Step = kit.Pick(r, []string{"answer", "dnskey", "ds"})
 			}
@@ -407,7 +409,7 @@ func oracleC01(o *resOp) bool {
 	if !truth.Secure {
 		return true // insecure names cannot be authenticated; only the AD clauses apply
 	}
-	if truth.OptOut && truth.Kind == "nxdomain" {
+	if truth.Spoofable {
 		// The name falls in an NSEC3 opt-out span: the zone does not sign the absence
 		// of insecure delegations there, so an attacker can legitimately-looking
 		// place unsigned data or denials at it. Only "never AD" applies.
